@@ -1576,7 +1576,13 @@ class ValueString(Value):
             )
 
     def asPattern(self):
-        return ValuePattern(self.value)
+        try:
+            return ValuePattern(self.value)
+        except (re.error, OverflowError):
+            raise CklRuntimeError(
+                ValueString("ERROR"),
+                "Cannot convert " + str(self.value) + " to pattern",
+            )
 
     def asList(self):
         return ValueList().addItem(self)
